@@ -77,7 +77,9 @@ def type_hint_is_as_or_more_specific_than(hint, other) -> bool:
         try:
             return issubclass(hint_type, other_type)
         except TypeError:
-            return hint_type == other_type
+            # Non-class objects (e.g. literal values): equal _and_ of the same type,
+            # so that `True` and `1` are kept apart like `typing.Literal` does
+            return hint_type == other_type and type(hint_type) is type(other_type)
     elif other_origin is None and hint_origin is not None:
         # When the hint adds specificity to an empty origin
         return hint_origin == other_type
